@@ -168,7 +168,7 @@ def gen(rng, tier):
         cases.append("sse " + " ".join(steps))
     # a full server over loop-back, sender threads; with h the client closes its sending side after the request and keeps
     # reading: the stream must go on while a sender is connected
-    cases += ["stress 2 40", "stress 2 40 h", "stress 1 30 h"]
+    cases += ["stress 2 40", "stress 2 40 h", "stress 1 30 h", "stress 2 40 r", "stress 1 30 r"]
     # the body converted to bytes while a sender (a clone) is still connected and sends later
     # (at most three short events are in the queue at any time: the conversion reads through read_to_end, whose probing
     # reads offer as little as 32 bytes, and an event that does not fit the offered buffer fails the whole conversion with
@@ -180,6 +180,7 @@ def gen(rng, tier):
             for _ in range(3):
                 cases.append("stress %d 200" % nt)
                 cases.append("stress %d 200 h" % nt)
+                cases.append("stress %d 200 r" % nt)
     return cases
 
 
